@@ -11,7 +11,9 @@ destination field has a default and an allow_unlinked_optional policy selects it
 """
 import collections
 import copy
+import dataclasses
 import linecache
+import typing
 from collections import Counter, OrderedDict, defaultdict
 from dataclasses import dataclass, field, make_dataclass
 from typing import Generic, NewType, TypeVar
@@ -555,6 +557,27 @@ def _run_shard(shard):
     return shard_missing(shard[1])
 
 
+def pep604_leg(report):
+    """the same refusals when a side is spelled with `|` (types.UnionType has no __name__): ProviderNotFoundError, nothing else"""
+    src = dataclasses.make_dataclass("S", [("x", int | None), ("y", int | str)])
+    for dname, dtype in (("model", M), ("List[int]", typing.List[int]), ("str", str)):
+        for fld in ("x", "y"):
+            dst = dataclasses.make_dataclass("D", [(fld, dtype)])
+            case = {"part": "pep604", "field": fld, "dst": dname}
+            report.case(("pep604", fld, dname), nontrivial=True, sample=case)
+            report.evaluations += 1
+            try:
+                get_converter(src, dst)
+                report.violation({"check": "C14", "problem": "accepts_uncoercible", "coercer": "pep604"},
+                                 f"S.{fld}: int | ... -> D.{fld}: {dname}: converter produced", case)
+            except ProviderNotFoundError:
+                report.outcome("pep604: refused")
+            except Exception as e:  # noqa: BLE001
+                report.violation({"check": "C14", "problem": "wrong_error_class", "exc": type(e).__name__, "coercer": "pep604"},
+                                 f"S.{fld}: {'int | None' if fld == 'x' else 'int | str'} -> D.{fld}: {dname}: creation raised "
+                                 f"{type(e).__name__}: {str(e)[:100]} (ProviderNotFoundError expected)", case)
+
+
 def run(tier):
     report = Report()
     wraps = WRAPS_QUICK if tier == "quick" else WRAPS_THOROUGH
@@ -564,6 +587,7 @@ def run(tier):
     report.count("ordered_pairs", len(POOL) ** 2)
     report.count("wrapper_pairs", len(wraps))
     parallel.run_shards(_run_shard, shards, report=report)
+    pep604_leg(report)
     return report
 
 
